@@ -114,6 +114,17 @@ var (
 	transparentSite = map[*ssa.Function]*ssa.Call{}
 )
 
+// AllFuncs lists the library functions including the transparent ones (which are absent from Funcs).
+func (p *Prog) AllFuncs() []*ssa.Function {
+	out := append([]*ssa.Function{}, p.Funcs...)
+	var ts []*ssa.Function
+	for fn := range transparentSite {
+		ts = append(ts, fn)
+	}
+	sort.Slice(ts, func(i, j int) bool { return OrdinalName(ts[i]) < OrdinalName(ts[j]) })
+	return append(out, ts...)
+}
+
 // IsTransparent reports whether fn is analysed as part of its enclosing function.
 func IsTransparent(fn *ssa.Function) bool { return fn != nil && transparentSite[fn] != nil }
 
